@@ -242,6 +242,12 @@ class CircuitCompositeOperation(ICircuitCompositeOperation):
             graph=self._circuit_graph,
             operation=operation,
         )
+        # Apply relation-link head to all first operations, as listing does for the operations present at that time.
+        # Otherwise an operation added after a listing reports times in another frame than its siblings until the next listing
+        if self.has_relation:
+            for node in self._circuit_graph.get_node_iterator():
+                if not node.operation.has_relation:
+                    node.operation.relation_link = self.relation_link.duplicate()
         # Duration of self (and start time of everything related to it) depends on the added operation
         clear_start_time_cache()
         return self
